@@ -363,6 +363,7 @@ def injector_part(ctx):
     kinds = ["FeatureShiftInjector", "FeatureSwapInjector", "FeatureCoverInjector", "BrownianNoiseInjector",
              "LabelSwapInjector", "LabelJoinInjector", "LabelProbabilityInjector", "LabelDirichletInjector"]
     for kind in kinds:
+        shared = getattr(inj, kind)()      # one long-lived injector object serves two calls out of three (containers alternate)
         for k in range(ncalls):
             layout = (LAYOUTS_ARR + LAYOUTS_DF)[k % 5]
             n, c = int(rng.integers(6, 14)), 3
@@ -399,7 +400,7 @@ def injector_part(ctx):
             base_before = snap(base)
             np.random.seed(c14.seed_of(ctx.seed, k))
             try:
-                out = getattr(inj, kind)()(*args, **kw)
+                out = (shared if k % 3 else getattr(inj, kind)())(*args, **kw)
             except Exception as ex:
                 # the mixed-dtype frame is coerced by np.copy; an injector may legitimately refuse nothing here
                 c14.report(ctx, signature={"class": "injector-raised", "component": kind},
